@@ -25,6 +25,9 @@ var allStrategies = []string{
 	"byz.nv-omit-locks",
 	"byz.nv-hash-mismatch",
 	"byz.nv-foreign-votes",
+	"byz.nv-stale-lock",
+	"byz.foreign-instance",
+	"byz.future-height",
 	"byz.replay",
 	"byz.replay-cross-type",
 	"byz.outsider",
@@ -198,6 +201,11 @@ func (w *World) adversaryStep() bool {
 		return false
 	}
 	s := w.cfg.Strategies[w.ch.Pick("strategy", len(w.cfg.Strategies))]
+	if len(w.advPlan) > 0 && w.ch.Pick("follow-plan", 4) > 0 {
+		// a director reached its target state: the adversary works on it for a while instead of acting at random
+		s = w.advPlan[0]
+		w.advPlan = w.advPlan[1:]
+	}
 	b := byz[w.ch.Pick("byz-who", len(byz))]
 	w.action("byz")
 	switch s {
@@ -209,8 +217,12 @@ func (w *World) adversaryStep() bool {
 		return w.advPPHiView(b, h, v, s)
 	case "byz.vote", "byz.vote-proof-no-block", "byz.vote-forged-proof":
 		return w.advVote(b, h, v, s)
-	case "byz.nv", "byz.nv-forged-votes", "byz.nv-omit-locks", "byz.nv-hash-mismatch", "byz.nv-foreign-votes":
+	case "byz.nv", "byz.nv-forged-votes", "byz.nv-omit-locks", "byz.nv-hash-mismatch", "byz.nv-foreign-votes", "byz.nv-stale-lock":
 		return w.advNewView(b, h, v, s)
+	case "byz.foreign-instance":
+		return w.advForeign(b, h, v, true)
+	case "byz.future-height":
+		return w.advForeign(b, h, v, false)
 	case "byz.replay":
 		return w.advReplay(b, h, v)
 	case "byz.replay-cross-type":
@@ -236,6 +248,9 @@ func (w *World) advFollow(b int, h, v uint64) bool {
 		return false
 	}
 	p := props[w.ch.Pick("follow-prop", len(props))]
+	if n := len(w.byzProposals); n > 0 && w.ch.Pick("follow-latest-byz", 2) == 1 && w.byzProposals[n-1].Height() == h {
+		p = w.byzProposals[n-1] // support the adversary's own latest proposal
+	}
 	sg := w.signer(b)
 	switch w.ch.Pick("follow-kind", 3) {
 	case 0:
@@ -336,6 +351,10 @@ func (w *World) capturedProofs(h uint64) []*SentRec {
 
 // forgeProof assembles a prepared proof from genuine signatures found in traffic plus Byzantine ones.
 func (w *World) forgeProof(b int, h, below uint64) (Proof, *Block, bool) {
+	return w.forgeProofKind(b, h, below, -1)
+}
+
+func (w *World) forgeProofKind(b int, h, below uint64, kind int) (Proof, *Block, bool) {
 	props := w.seenProposals(h, -1)
 	var cand []*Msg
 	for _, p := range props {
@@ -372,7 +391,10 @@ func (w *World) forgeProof(b int, h, below uint64) (Proof, *Block, bool) {
 	}
 	sg := w.signer(b)
 	own := Sig{sg.Id(), sg.Msg(h, refBuilder(protocol.LEAN_HELIX_PREPARE, w.instance, h, p.Ref.V, p.Ref.Hash).Build().Raw())}
-	switch w.ch.Pick("fp-kind", 5) {
+	if kind < 0 {
+		kind = w.ch.Pick("fp-kind", 5)
+	}
+	switch kind {
 	case 0: // whatever genuine material exists + own signature (may or may not reach quorum)
 		pr.PSigs = append(pr.PSigs, own)
 	case 1: // duplicate signer to inflate
@@ -469,6 +491,14 @@ func (w *World) capturedVotes(h, v uint64) []*SentRec {
 }
 
 func (w *World) advNewView(b int, h, v uint64, tag string) bool {
+	// if the view the correct nodes are in is led by a Byzantine member, that member acts
+	cv := v
+	if cv == 0 {
+		cv = 1
+	}
+	if l := w.keys.IdxOf(w.leader(h, cv)); l >= 0 && l < w.cfg.N && w.nodes[l].byz {
+		b = l
+	}
 	sg := w.signer(b)
 	// a view >= max(v,1) that b leads
 	tv := v
@@ -499,7 +529,27 @@ func (w *World) advNewView(b int, h, v uint64, tag string) bool {
 			best = s
 		}
 	}
-	votes = append(votes, SignedVote(sg, w.instance, h, tv, Proof{}))
+	ownProof := Proof{}
+	var staleBlk interfaces.Block
+	if tag == "byz.nv-stale-lock" {
+		// the leader's own vote carries an older genuine prepared proof (copied from an honest vote, or assembled
+		// from genuine PREPARE signatures) and the NEW_VIEW re-proposes that older block
+		if caps := w.capturedProofs(h); len(caps) > 0 && w.ch.Pick("stale-copy", 2) == 1 {
+			c := caps[w.ch.Pick("stale-cap", len(caps))]
+			if c.msg.Vote.Proof.PP.V < tv {
+				ownProof, staleBlk = c.msg.Vote.Proof, c.raw.Block
+			}
+		}
+		if !ownProof.Present {
+			if p, bk, ok := w.forgeProofKind(b, h, tv, 0); ok && bk != nil {
+				ownProof, staleBlk = p, bk
+			}
+		}
+		if !ownProof.Present {
+			return false
+		}
+	}
+	votes = append(votes, SignedVote(sg, w.instance, h, tv, ownProof))
 	for _, ob := range w.byzMembersAt(h) {
 		if ob != b {
 			votes = append(votes, SignedVote(w.signer(ob), w.instance, h, tv, Proof{}))
@@ -539,7 +589,9 @@ func (w *World) advNewView(b int, h, v uint64, tag string) bool {
 	// proposal
 	var blk interfaces.Block
 	var hash []byte
-	if best != nil && tag != "byz.nv-omit-locks" && w.ch.Pick("nv-honour-lock", 4) != 3 {
+	if tag == "byz.nv-stale-lock" {
+		blk, hash = staleBlk, ownProof.PP.Hash
+	} else if best != nil && tag != "byz.nv-omit-locks" && w.ch.Pick("nv-honour-lock", 4) != 3 {
 		blk = best.raw.Block
 		hash = best.msg.Vote.Proof.PP.Hash
 	} else {
@@ -560,12 +612,27 @@ func (w *World) advNewView(b int, h, v uint64, tag string) bool {
 	ppSig := Sig{sg.Id(), sg.Msg(h, ppHdr.Build().Raw())}
 	// order of votes is a tape decision
 	perm := w.ch.Perm("nv-order", len(votes))
+	if tag == "byz.nv-stale-lock" && w.ch.Pick("stale-last", 2) == 1 {
+		// keep the generated order: honest votes first, the stale one after them
+		for i := range perm {
+			perm[i] = i
+		}
+	}
 	ordered := make([]*protocol.ViewChangeMessageContentBuilder, len(votes))
 	for i, j := range perm {
 		ordered[i] = votes[j]
 	}
 	raw := NewViewMsg(sg, w.instance, h, tv, ordered, ppHdr, ppSig, blk)
 	w.rememberByzProposal(raw)
+	if tag == "byz.nv-stale-lock" {
+		var all []int
+		for _, n := range w.honest() {
+			if n.alive {
+				all = append(all, n.idx)
+			}
+		}
+		return w.inject(b, raw, tag, all) > 0
+	}
 	return w.inject(b, raw, tag, nil) > 0
 }
 
@@ -905,4 +972,44 @@ func (w *World) advBytes(b int) bool {
 	w.use("input.bytes-" + cls)
 	raw := &interfaces.ConsensusRawMessage{Content: base}
 	return w.inject(b, raw, "byz.bytes", nil) > 0
+}
+
+// byz.foreign-instance / byz.future-height: well-signed messages of a Byzantine member for the next height (they go
+// through the future cache) and / or for another instance id.
+func (w *World) advForeign(b int, h, v uint64, foreign bool) bool {
+	sg := w.signer(b)
+	inst := w.instance
+	tag := "byz.future-height"
+	if foreign {
+		inst++
+		tag = "byz.foreign-instance"
+	}
+	hh := h + uint64(w.ch.Pick("fi-dh", 2))
+	if !foreign && hh == h {
+		hh = h + 1
+	}
+	var hash []byte
+	if props := w.seenProposals(hh, -1); len(props) > 0 {
+		hash = props[w.ch.Pick("fi-prop", len(props))].Ref.Hash
+	} else {
+		hash = w.freshBlock(hh, b, false).Hash()
+	}
+	vv := uint64(w.ch.Pick("fi-v", 2))
+	var raw *interfaces.ConsensusRawMessage
+	switch w.ch.Pick("fi-kind", 4) {
+	case 0:
+		blk := w.blocks[string(hash)]
+		var attach interfaces.Block
+		if blk != nil {
+			attach = blk
+		}
+		raw = SignedRefMsg(sg, KPP, protocol.LEAN_HELIX_PREPREPARE, inst, hh, vv, hash, nil, attach)
+	case 1:
+		raw = SignedRefMsg(sg, KP, protocol.LEAN_HELIX_PREPARE, inst, hh, vv, hash, nil, nil)
+	case 2:
+		raw = SignedRefMsg(sg, KC, protocol.LEAN_HELIX_COMMIT, inst, hh, vv, hash, sg.Seed(hh, w.seedContent(hh)), nil)
+	default:
+		raw = VoteMsg(SignedVote(sg, inst, hh, vv+1, Proof{}), nil)
+	}
+	return w.inject(b, raw, tag, nil) > 0
 }
